@@ -220,7 +220,7 @@ func isRecvOf(info *types.Info, fb *FuncBody, v *types.Var) bool {
 // ownedAllow: stores through a parameter that are legitimate because the parameter is call-owned.
 var ownedAllow = map[string]string{
 	"task.(*Executor).runDeferred|Cmd.Cmd":    "the compiled task handed to the deferred-command runner is private to this call (built by the task compiler with fresh Cmd copies: rule fresh-copy-per-call); the lazily rendered text is written into that private copy",
-	"task.(*Executor).GetTask|Call.Vars.Set":  "the Call object is created per invocation of RunTask / per command-line target; its Vars come from the freshly compiled Dep/Cmd or are created here",
+	"task.(*Executor).GetTask|Call.Vars.Set":  "the Call object is created per invocation of RunTask / per command-line target; its Vars come from the freshly compiled Dep/Cmd or are created here; that no two goroutines resolve the same Call object is decided by rule call-object-per-goroutine (C18)",
 	"task.(*Executor).setupDefaults|Taskfile": "setup phase: runs once before any task is compiled or started",
 }
 
